@@ -39,6 +39,7 @@ def run(ctx):
     check_get_parameters(ctx)
     check_function_names(ctx)
     check_case_typed(ctx, V)
+    check_list_item_kinds(ctx)
     from .. import rules_tree as RT2
     ctx.rule('R13.5', 'grouping is total: no size/depth cut-off in the drivers and passes this property relies on', floor=1)
     RT2.check_recursion_coverage(ctx, 'R13.5', only={'group_where', 'group_identifier_list', 'group_functions', 'group_comparison', 'group_typed_literal', 'group_case', 'group_parenthesis', 'group_operator', 'group_aliased', 'group_as', 'group_identifier'})
@@ -359,3 +360,47 @@ def check_case_typed(ctx, V):
         m = cc.methods.get(name)
         ok = m is not None and any(isinstance(r, ast.Return) and src(r.value) == f'self.tokens[{idx}]' for r in own_nodes(m.node))
         ctx.ob('R13.4', f'Comparison.{name}', f'{cc.mod.relpath}:{cc.node.lineno}', f'Comparison.{name} is self.tokens[{idx}]', ok, '')
+
+
+def check_list_item_kinds(ctx):
+    """`a comma-separated select or FROM list is one IdentifierList`: the joining pass builds it only between neighbours its `valid`
+    predicate accepts.  Interpreted on every kind of expression that can stand as a list item: each must be accepted."""
+    repo = ctx.repo
+    g = repo.func('sqlparse.engine.grouping.group_identifier_list')
+    loc = f'{g.mod.relpath}:{g.node.lineno}'
+    ctx.rule('R13.7', 'every kind of expression that can be an item of a select / FROM / argument list is accepted by the list pass', floor=10)
+    valid = g.nested.get('valid') or g.nested.get('valid_prev')
+    ctx.need(valid is not None, 'group_identifier_list has no nested `valid` predicate')
+    ev = ME.Evaluator(ctx, g.mod, None)
+    genv = {}
+    for s_ in g.node.body:
+        if isinstance(s_, ast.Assign) and is_name(s_.targets[0]):
+            try:
+                genv[s_.targets[0].id] = ev.ev(s_.value, genv)
+            except (ME.Unsupported, ME.Unknown):
+                pass
+    pred = ME.MiniFunc(ev, valid.node, genv, 'valid')
+    kinds = [('name', ME.AbsToken(repo, ttype=TT(('Name',)), value='x')),
+             ('built-in type name used as a column (timestamp, date, int)', ME.AbsToken(repo, ttype=TT(('Name', 'Builtin')), value='timestamp')),
+             ('placeholder', ME.AbsToken(repo, ttype=TT(('Name', 'Placeholder')), value='?')),
+             ('integer', ME.AbsToken(repo, ttype=TT(('Literal', 'Number', 'Integer')), value='1')),
+             ('float', ME.AbsToken(repo, ttype=TT(('Literal', 'Number', 'Float')), value='1.5')),
+             ('hexadecimal number', ME.AbsToken(repo, ttype=TT(('Literal', 'Number', 'Hexadecimal')), value='0xFF')),
+             ('string', ME.AbsToken(repo, ttype=TT(('Literal', 'String', 'Single')), value="'s'")),
+             ('quoted name', ME.AbsToken(repo, ttype=TT(('Literal', 'String', 'Symbol')), value='"s"')),
+             ('NULL', ME.AbsToken(repo, ttype=TT(('Keyword',)), value='null')),
+             ('wildcard', ME.AbsToken(repo, ttype=TT(('Wildcard',)), value='*'))]
+    for cname, label in (('Identifier', 'identifier'), ('Function', 'function call'), ('Case', 'CASE expression'), ('Comparison', 'comparison'),
+                         ('Operation', 'arithmetic expression'), ('TypedLiteral', "typed literal (DATE '...')"),
+                         ('Parenthesis', 'parenthesised expression / scalar subquery')):
+        c_ = repo.classes.get(f'sqlparse.sql.{cname}')
+        if c_ is not None:
+            kinds.append((label, ME.AbsToken(repo, cls=c_)))
+    for label, tok in kinds:
+        try:
+            ok = bool(ev.truth(pred(tok)))
+        except (ME.Unsupported, ME.Unknown) as e:
+            ctx.ob('R13.7', f'item:{label}', loc, 'list-item predicate evaluable', None, str(e))
+            continue
+        ctx.ob('R13.7', f'item:{label}', loc, f'a {label} next to a comma is accepted as a list item', ok,
+               f'`valid` rejects it: `select a, <{label}> from t` (or with the item first) is not grouped into one IdentifierList, get_identifiers() is never reached')
